@@ -769,7 +769,7 @@ def make_machine(opts, stats):
 
 def gen_opts():
     avoid = common.avoid_set(ID)
-    return gen.GenOpts(avoid=avoid, big_sizes=False, max_decls=5, allow_greedy=True,
+    return gen.GenOpts(avoid=avoid, big_sizes=False, max_decls=5, allow_greedy=True, long_fixed_bias=8,
                        nonfixed_bytes=('unset_nonfixed_bytes' not in avoid))
 
 
